@@ -23,25 +23,28 @@ MKsSym(k, m, t) ==
     IF m = "enc" THEN [k0 |-> <<k, "k0">>, k0p |-> <<k, "k0r">>, k1 |-> <<k, FALSE>>, tw |-> t]
     ELSE              [k0 |-> <<k, "k0r">>, k0p |-> <<k, "k0">>, k1 |-> <<k, TRUE>>,  tw |-> t]
 
+Budget == MaxCalls = 0 \/ calls < MaxCalls
+Tick == IF MaxCalls = 0 THEN 0 ELSE calls + 1
+
 Init == /\ key = "none" /\ mode = "enc" /\ last = "zero" /\ calls = 0
         /\ obj = [k0 |-> "z", k0p |-> "z", k1 |-> "z", tw |-> "zero"]
 
 SetKey(k, m) ==
-    /\ calls < MaxCalls
+    /\ Budget
     /\ obj' = MKsSym(k, m, "zero")           \* keying resets the tweak to zero
-    /\ key' = k /\ mode' = m /\ last' = "zero" /\ calls' = calls + 1
+    /\ key' = k /\ mode' = m /\ last' = "zero" /\ calls' = Tick
 
 SetTweak(t) ==
-    /\ calls < MaxCalls /\ key # "none"
+    /\ Budget /\ key # "none"
     /\ obj' = [obj EXCEPT !.tw = t]
-    /\ last' = t /\ calls' = calls + 1 /\ UNCHANGED <<key, mode>>
+    /\ last' = t /\ calls' = Tick /\ UNCHANGED <<key, mode>>
 
 Swap ==
-    /\ calls < MaxCalls /\ key # "none"
+    /\ Budget /\ key # "none"
     /\ obj' = [k0 |-> obj.k0p, k0p |-> obj.k0,
                k1 |-> IF Variant = "noalpha" THEN obj.k1 ELSE <<obj.k1[1], ~obj.k1[2]>>,
                tw |-> IF Variant = "losetweak" THEN "zero" ELSE obj.tw]
-    /\ mode' = Flip(mode) /\ calls' = calls + 1 /\ UNCHANGED <<key, last>>
+    /\ mode' = Flip(mode) /\ calls' = Tick /\ UNCHANGED <<key, last>>
 
 Next ==
     \/ \E k \in Keys, m \in {"enc", "dec"} : SetKey(k, m)
